@@ -77,6 +77,41 @@ func genC04(tier string, r *rng, emit func(string)) {
 		emit(fmt.Sprintf("prog %s new:rm:3,4:10;T:0:1,0;zero:0", dt))
 		emit(fmt.Sprintf("prog %s new:rm:3,4:10;memset:0:1;zero:0", dt))
 	}
+	// conversions out of a tensor preserve its elements: native.Vector/Matrix/Tensor3/Select of every
+	// element type and ToMat64, on every source layout (row-slices of a matrix stay contiguous and
+	// are accepted; the other views and column-major tensors are refused)
+	for _, dt := range dtypeNames {
+		for _, sh := range [][]int{{4}, {2, 3}, {3, 2}, {2, 3, 4}, {3, 2, 2}, {1, 3}, {3, 1}, {1, 1}, {2, 2, 2, 2}, {}} {
+			for _, la := range []string{"rm", "cm", "T", "slice", "stepslice", "mat", "rowslice"} {
+				var pre string
+				var idx int
+				if la == "rowslice" {
+					if len(sh) < 2 {
+						continue
+					}
+					big := append([]int{sh[0] + 2}, sh[1:]...)
+					pre, idx = fmt.Sprintf("new:rm:%s:3;slice:0:1.%d.1", fints(big), sh[0]+1), 1
+				} else {
+					pre, idx = source(r, la, sh, 3)
+				}
+				if prod(sh) > 30 && dt != "f64" && dt != "u8" && dt != "str" {
+					continue
+				}
+				emit(fmt.Sprintf("prog %s %s;native:%d", dt, pre, idx))
+				for ax := 0; ax <= len(sh) && ax < 4; ax++ {
+					if (la == "rm" || la == "rowslice" || ax == 0) && (dt == "f64" || dt == "i16" || dt == "str" || len(sh) == 3) {
+						emit(fmt.Sprintf("prog %s %s;select:%d:%d", dt, pre, idx, ax))
+					}
+				}
+				if len(sh) <= 2 && dt != "str" && dt != "b" && dt != "c64" && dt != "c128" {
+					emit(fmt.Sprintf("prog %s %s;tomat:%d", dt, pre, idx))
+					if dt == "f64" {
+						emit(fmt.Sprintf("prog %s %s;tomat:%d:unsafe", dt, pre, idx))
+					}
+				}
+			}
+		}
+	}
 	dts := []string{"f64", "i", "u8", "str", "f32", "c64", "b", "i8"}
 	for i := 0; i < n; i++ {
 		sh := randShape(r, 1, 4, 4)
@@ -122,7 +157,11 @@ func genC04(tier string, r *rng, emit func(string)) {
 			if r.intn(4) == 0 {
 				prog += fmt.Sprintf(";un:%s:%d:unsafe", []string{"neg", "square", "cube", "abs"}[r.intn(4)], target)
 			} else {
-				prog += fmt.Sprintf(";bins:%s:%d:2:%s:unsafe", op, target, []string{"left", "right"}[r.intn(2)])
+				side := []string{"left", "right"}[r.intn(2)]
+				if op == "pow" {
+					side = "left" // tensor^2: 2^tensor leaves the exactly representable range
+				}
+				prog += fmt.Sprintf(";bins:%s:%d:2:%s:unsafe", op, target, side)
 			}
 		case 10: // in-place tensor-tensor arithmetic, the view as the overwritten operand
 			arith = true
